@@ -71,6 +71,7 @@ def check(rep, an, tier):
             F.qty(rep, res, entry, allow=allow, subs=("mismatch", "literal"))
             F.typed_sites(rep, res, entry)
             tolerances(rep, res, entry)
+            R.rule_dtype(rep, res, entry)
             items = F.ret_items(res)
             for i, lab in enumerate(("Xmin", "Xmax")):
                 v = items[i].flat()
